@@ -1249,6 +1249,7 @@ func main() {
 	familyRead(s, r.Fork(), n*4/15, thorough)
 	familyRound(s, r.Fork(), n/5, thorough)
 	familyLong(s, r.Fork(), n/50)
+	familyBigRound(s, r.Fork(), 4+n/1000)
 	s.Finish()
 }
 
@@ -1260,6 +1261,121 @@ func minInt(a, b int) int {
 }
 
 // framesSame: equal names, types and cells (Equals treats NaN = NaN; enum columns compare by value)
+// familyBigRound: the ToCSV -> ReadCSV round trip on frames of several thousand rows (more than any initial
+// capacity of the reader's per-column buffers), two to four columns of int / string / float / enum, with and
+// without a row count hint.  Decided in Go (too long for the Coq evaluation): every cell of the frame read back,
+// seen through the typed views, must be the cell that was written.
+func familyBigRound(s *hlib.Suite, r *hlib.Rng, n int) {
+	for it := 0; it < n; it++ {
+		nrows := 4090 + r.Intn(3000)
+		if r.Chance(1, 4) {
+			nrows = 8190 + r.Intn(3000)
+		}
+		ints := make([]int, nrows)
+		strs := make([]string, nrows)
+		flts := make([]float64, nrows)
+		ens := make([]*string, nrows)
+		evals := []string{"red", "green", "blue"}
+		for i := range ints {
+			ints[i] = 1000000 + i*7
+			strs[i] = fmt.Sprintf("name-%d", i*3)
+			flts[i] = float64(i) / 8
+			v := evals[i%3]
+			ens[i] = &v
+		}
+		all := []string{"I", "S", "F", "E"}
+		perm := r.Perm(4)
+		ncols := 2 + r.Intn(3)
+		names := make([]string, ncols)
+		for j := range names {
+			names[j] = all[perm[j]]
+		}
+		data := map[string]interface{}{}
+		types := map[string]string{}
+		for _, nm := range names {
+			switch nm {
+			case "I":
+				data[nm], types[nm] = ints, "int"
+			case "S":
+				data[nm], types[nm] = strs, "string"
+			case "F":
+				data[nm], types[nm] = flts, "float"
+			default:
+				data[nm], types[nm] = ens, "enum"
+			}
+		}
+		qf := qframe.New(data, newqf.ColumnOrder(names...), newqf.Enums(map[string][]string{"E": evals}))
+		hint := []int{0, 0, 100, nrows, nrows + 10}[r.Intn(5)]
+		desc := map[string]interface{}{"family": "big-roundtrip", "rows": nrows, "columns": names, "row_count_hint": hint, "props": []string{"C13", "C12"}}
+		id := s.NextID()
+		if qf.Err != nil {
+			s.Fail(id, fmt.Sprintf("building the frame failed: %v", qf.Err), desc, "csv-harness")
+			continue
+		}
+		var buf bytes.Buffer
+		if err := qf.ToCSV(&buf); err != nil {
+			s.Fail(id, fmt.Sprintf("ToCSV failed: %v", err), desc, "")
+			continue
+		}
+		rfns := []csv.ConfigFunc{csv.Types(types), csv.EnumValues(map[string][]string{"E": evals})}
+		if hint > 0 {
+			rfns = append(rfns, csv.RowCountHint(hint))
+		}
+		var back qframe.QFrame
+		if p, v := hlib.Recover(func() { back = qframe.ReadCSV(bytes.NewReader(buf.Bytes()), rfns...) }); p {
+			s.Fail(id, fmt.Sprintf("ReadCSV panicked: %v", v), desc, "csv-read-panic")
+			continue
+		}
+		s.Count("big-roundtrips")
+		if back.Err != nil {
+			s.Fail(id, fmt.Sprintf("ReadCSV of ToCSV output failed: %v", back.Err), desc, "")
+			continue
+		}
+		bad := ""
+		if back.Len() != nrows || fmt.Sprint(back.ColumnNames()) != fmt.Sprint(names) {
+			bad = fmt.Sprintf("read back %d rows, columns %v; written %d rows, columns %v", back.Len(), back.ColumnNames(), nrows, names)
+		}
+		for _, nm := range names {
+			if bad != "" {
+				break
+			}
+			switch nm {
+			case "I":
+				v := back.MustIntView(nm)
+				for i := 0; i < nrows && bad == ""; i++ {
+					if v.ItemAt(i) != ints[i] {
+						bad = fmt.Sprintf("row %d of %s reads back as %d, written %d", i, nm, v.ItemAt(i), ints[i])
+					}
+				}
+			case "S":
+				v := back.MustStringView(nm)
+				for i := 0; i < nrows && bad == ""; i++ {
+					if x := v.ItemAt(i); x == nil || *x != strs[i] {
+						bad = fmt.Sprintf("row %d of %s reads back as %v, written %q", i, nm, hlib.OptStr(x), strs[i])
+					}
+				}
+			case "F":
+				v := back.MustFloatView(nm)
+				for i := 0; i < nrows && bad == ""; i++ {
+					if v.ItemAt(i) != flts[i] {
+						bad = fmt.Sprintf("row %d of %s reads back as %v, written %v", i, nm, v.ItemAt(i), flts[i])
+					}
+				}
+			default:
+				v := back.MustEnumView(nm)
+				for i := 0; i < nrows && bad == ""; i++ {
+					if x := v.ItemAt(i); x == nil || *x != *ens[i] {
+						bad = fmt.Sprintf("row %d of %s reads back as %v, written %q", i, nm, hlib.OptStr(x), *ens[i])
+					}
+				}
+			}
+		}
+		if bad != "" {
+			s.Fail(id, "round trip of a long frame: "+bad, desc, "csv-big-roundtrip")
+		}
+	}
+}
+
 func framesSame(a, b qframe.QFrame) bool {
 	if fmt.Sprint(a.ColumnNames()) != fmt.Sprint(b.ColumnNames()) || fmt.Sprint(a.ColumnTypes()) != fmt.Sprint(b.ColumnTypes()) {
 		return false
